@@ -1,5 +1,6 @@
 import Spine.Approval
 import Spine.ApprovalConn
+import Spine.ApprovalWire
 open Spine
 /-! Line protocol for the write-approval model (C12). One op per line, one answer per line.
     The model driven is `Spine.ApprE` (maps keyed by counter as in the code, write instances = (epoch, counter)),
@@ -10,14 +11,19 @@ open Spine
     answer is prefixed with `MODEL-DIVERGENCE`.
 
     ops:  reset <nCb>                 -> ok
-          arrive <p> <c>              -> pres=<n> [outcomes]      (instance = (current epoch of p, c))
+          arrive <p> <c> [<ack> <chg>] -> pres=<n> [outcomes]     (instance = (current epoch of p, c); ack = the header
+                                                                   asks for an acknowledgement, chg = applying the
+                                                                   payload is known to change the data)
           lookup <id> <p> <ep> <c>    -> outcomes (none)          (the verdict's MESSAGE is instance (ep, c))
           commit <id> <p> <0|1>       -> outcomes
           expire <p> <ep> <c>         -> outcomes (timeoutTake ; timeoutSend)
           take / send <p> <ep> <c>    -> the halves on their own
           drop <p>                    -> the peer's connection is removed
           member                      -> the flags
-    outcomes: `.` or sorted comma-separated `<ep>/<c>:applied|derr|terr`. -/
+    outcomes: `.` or sorted comma-separated `p<p>.<ep>/<c>:applied|derr|terr`, followed — effects of the outcomes as
+    `Spine.ApprW` defines them — by `p<p>.<conn>/<c>:ack` for every success result (ApprW.results: iff applied and
+    acknowledgement requested, on the connection the write came in on; the connection of an error result is the one
+    printed with `derr`/`terr`) and `p<p>.<ep>/<c>:data` for every change of the data (ApprW.applies, when chg). -/
 
 def kindStr (o : Appr.Out) (timeout : Bool) : String :=
   match o with
@@ -27,16 +33,42 @@ def kindStr (o : Appr.Out) (timeout : Bool) : String :=
 structure P where
   e : ApprE.St
   a : Appr.St          -- the instance-keyed twin (meaningful for the fully repaired member only)
+  attrs : List (Nat × ApprW.Attr × Bool) := []   -- instance key ↦ (ackRequest, connection; applying changes the data)
 
 def key (i : ApprE.Inst) : Nat := i.1 * 1000000 + i.2
 
-def showNew (p p' : P) (timeout : Bool) (twin : Bool) : String :=
-  let ne := (p'.e.outcomes.drop p.e.outcomes.length).map fun (i, o) => s!"{i.1}/{i.2}:{kindStr o timeout}"
-  let na := (p'.a.outcomes.drop p.a.outcomes.length).map fun (w, o) => s!"{w / 1000000}/{w % 1000000}:{kindStr o timeout}"
-  let se := (ne.toArray.qsort (· < ·)).toList
-  let sa := (na.toArray.qsort (· < ·)).toList
+def attrOf (p : P) (k : Nat) : ApprW.Attr :=
+  match p.attrs.find? (·.1 = k) with
+  | some (_, a, _) => a
+  | none => {}
+
+def chgOf (p : P) (k : Nat) : Bool :=
+  match p.attrs.find? (·.1 = k) with
+  | some (_, _, c) => c
+  | none => false
+
+def showNew (pi : Nat) (p p' : P) (timeout : Bool) (twin : Bool) : String :=
+  let newE := p'.e.outcomes.drop p.e.outcomes.length
+  let keyed : List (Nat × Appr.Out) := newE.map fun (i, o) => (key i, o)
+  -- outcomes; the connection printed with an error is the one ApprW.results sends it on
+  let errConn (k : Nat) : Nat := match (ApprW.results (attrOf p') (k, .error)) with
+    | (c, _, _) :: _ => c
+    | [] => 0
+  let ne := keyed.map fun (k, o) =>
+    match o with
+    | .applied => s!"p{pi}.{k / 1000000}/{k % 1000000}:applied"
+    | .error => s!"p{pi}.{errConn k}/{k % 1000000}:{kindStr o timeout}"
+  let acks := (keyed.flatMap (ApprW.results (attrOf p'))).filterMap fun (c, k, r) =>
+    match r with
+    | .success => some s!"p{pi}.{c}/{k % 1000000}:ack"
+    | .error => none
+  let datas := ((keyed.flatMap ApprW.applies).filter (chgOf p')).map fun k => s!"p{pi}.{k / 1000000}/{k % 1000000}:data"
+  let na := (p'.a.outcomes.drop p.a.outcomes.length).map fun (w, o) => (w, o)
+  let se := ((ne ++ acks ++ datas).toArray.qsort (· < ·)).toList
+  let ka := ((keyed.map fun (k, o) => s!"{k}:{kindStr o false}").toArray.qsort (· < ·)).toList
+  let sa := ((na.map fun (k, o) => s!"{k}:{kindStr o false}").toArray.qsort (· < ·)).toList
   let body := if se.isEmpty then "." else ",".intercalate se
-  if twin && se != sa then s!"MODEL-DIVERGENCE instance-keyed={sa} {body}" else body
+  if twin && ka != sa then s!"MODEL-DIVERGENCE instance-keyed={sa} {body}" else body
 
 def full (c : ApprE.Cfg) : Bool := !c.tallyReset && !c.ignoreStop && c.recheck && c.msgId
 
@@ -48,7 +80,7 @@ def stepP (c : ApprE.Cfg) (p : P) (e : ApprE.Ev) : P :=
     | .timeoutTake t => some (.timeoutTake (key t))
     | .timeoutSend t => some (.timeoutSend (key t))
     | .drop => some .drop
-  { e := ApprE.step c p.e e, a := match ae with | some x => Appr.step Appr.Cfg.clean p.a x | none => p.a }
+  { p with e := ApprE.step c p.e e, a := match ae with | some x => Appr.step Appr.Cfg.clean p.a x | none => p.a }
 
 def nats (l : List String) : Option (List Nat) := l.mapM (·.toNat?)
 
@@ -59,44 +91,51 @@ def answer (c : ApprE.Cfg) (ps : Array P) (ws : List String) : Array P × String
     match nats r with
     | some [p, ctr] => match ps[p]? with
       | some s => let s' := stepP c s (.arrive ctr)
-                  (ps.set! p s', s!"pres={s'.e.presented - s.e.presented} {showNew s s' false tw}")
+                  (ps.set! p s', s!"pres={s'.e.presented - s.e.presented} {showNew p s s' false tw}")
+      | none => (ps, "bad-op")
+    | some [p, ctr, ack, chg] => match ps[p]? with
+      | some s =>
+        let fresh := !s.e.seen.contains (s.e.ep, ctr)
+        let s0 : P := if fresh then { s with attrs := (key (s.e.ep, ctr), { ack := ack == 1, conn := s.e.ep }, chg == 1) :: s.attrs } else s
+        let s' := stepP c s0 (.arrive ctr)
+        (ps.set! p s', s!"pres={s'.e.presented - s.e.presented} {showNew p s s' false tw}")
       | none => (ps, "bad-op")
     | _ => (ps, "bad-op")
   | "lookup" :: r =>
     match nats r with
     | some [id, p, ep, ctr] => match ps[p]? with
-      | some s => let s' := stepP c s (.lookup id (ep, ctr)); (ps.set! p s', showNew s s' false tw)
+      | some s => let s' := stepP c s (.lookup id (ep, ctr)); (ps.set! p s', showNew p s s' false tw)
       | none => (ps, "bad-op")
     | _ => (ps, "bad-op")
   | "commit" :: r =>
     match nats r with
     | some [id, p, a] => match ps[p]? with
-      | some s => let s' := stepP c s (.commit id (a == 1)); (ps.set! p s', showNew s s' false tw)
+      | some s => let s' := stepP c s (.commit id (a == 1)); (ps.set! p s', showNew p s s' false tw)
       | none => (ps, "bad-op")
     | _ => (ps, "bad-op")
   | "expire" :: r =>
     match nats r with
     | some [p, ep, ctr] => match ps[p]? with
       | some s => let s' := stepP c (stepP c s (.timeoutTake (ep, ctr))) (.timeoutSend (ep, ctr))
-                  (ps.set! p s', showNew s s' true tw)
+                  (ps.set! p s', showNew p s s' true tw)
       | none => (ps, "bad-op")
     | _ => (ps, "bad-op")
   | "take" :: r =>
     match nats r with
     | some [p, ep, ctr] => match ps[p]? with
-      | some s => let s' := stepP c s (.timeoutTake (ep, ctr)); (ps.set! p s', showNew s s' true tw)
+      | some s => let s' := stepP c s (.timeoutTake (ep, ctr)); (ps.set! p s', showNew p s s' true tw)
       | none => (ps, "bad-op")
     | _ => (ps, "bad-op")
   | "send" :: r =>
     match nats r with
     | some [p, ep, ctr] => match ps[p]? with
-      | some s => let s' := stepP c s (.timeoutSend (ep, ctr)); (ps.set! p s', showNew s s' true tw)
+      | some s => let s' := stepP c s (.timeoutSend (ep, ctr)); (ps.set! p s', showNew p s s' true tw)
       | none => (ps, "bad-op")
     | _ => (ps, "bad-op")
   | ["drop", p] =>
     match p.toNat? with
     | some p => match ps[p]? with
-      | some s => let s' := stepP c s .drop; (ps.set! p s', showNew s s' false tw)
+      | some s => let s' := stepP c s .drop; (ps.set! p s', showNew p s s' false tw)
       | none => (ps, "bad-op")
     | none => (ps, "bad-op")
   | ["pending", p] =>
